@@ -571,6 +571,20 @@ def check(repo: Repo, run: Run) -> None:
                     a_ = _g.assumptions(p_.pc)
                     if render.assume_lookup(a_, T("cmp", ("in", p_.key, p_.base))) is True:
                         why = "membership tested on the path"
+                if why is None:
+                    # membership tested in a table that has the registry's own keys: `{ns: ... for ns, e in <registry>.items()}`
+                    short_ = p_.base.a[0].rsplit(".", 1)[1]
+                    for gname_, gnode_ in mod.constants.items():
+                        if isinstance(gnode_, ast.DictComp) and len(gnode_.generators) == 1 and not gnode_.generators[0].ifs:
+                            it_ = gnode_.generators[0].iter
+                            src_ = it_.func.value if isinstance(it_, ast.Call) and isinstance(it_.func, ast.Attribute) and it_.func.attr in ("items", "keys") else it_
+                            tg_ = gnode_.generators[0].target
+                            first_ = tg_.elts[0] if isinstance(tg_, ast.Tuple) and tg_.elts else tg_
+                            if isinstance(src_, ast.Name) and src_.id == short_ and isinstance(first_, ast.Name) \
+                                    and isinstance(gnode_.key, ast.Name) and gnode_.key.id == first_.id:
+                                derived_ = T("global", (f"{mod.name}.{gname_}",))
+                                if render.assume_lookup(a_, T("cmp", ("in", p_.key, derived_))) is True:
+                                    why = f"membership tested in {gname_}, which has the registry's keys"
                 run.ob("R13", MOD, "OsLogEvent.parse_trace_identifier", f"{p_.base.a[0].rsplit('.', 1)[1]}[namespace] only for listed namespaces (line {p_.lineno})",
                        why is not None, "" if why is not None else
                        f"parse_trace_identifier reads {p_.base.a[0].rsplit('.', 1)[1]}[{sym.pretty(p_.key)[:40]}] without having established that "
